@@ -2,7 +2,7 @@
     Domain of every op: from >= 0, 0 <= w <= 32 (w = to-from resp. the height),
     from + w + 7 < 2^31, every byte in [0,256). *)
 From Coq Require Import ZArith List Bool String.
-From Low Require Import Lib.Bits Lib.BitSeq Lib.Bytes Lib.Val Model.FromStr32 Spec.FromStr32Spec.
+From Low Require Import Lib.Bits Lib.BitSeq Lib.Bytes Lib.Val Model.BmtreePathStr Model.FromStr32 Spec.FromStr32Spec.
 Import ListNotations.
 Open Scope string_scope.
 Open Scope Z_scope.
